@@ -34,6 +34,11 @@ TRANSPORT = {'socket.getaddrinfo', 'socket.socket', 'socket.connect', 'socket.se
 
 def check(run):
     R = run
+    R.rule('C09.shared', 'objects created once per class / per function definition (class-level attributes, parameter '
+           'defaults) are only read: no buffer, validator, poll object, header list or option dict is shared between '
+           'connections', 1)
+    from .common import shared_state
+    shared_state(R, 'C09.shared')
     R.rule('C09.sites', 'every transport-operation call site is on a call path from run() whose faults are absorbed; no '
                         'exception escapes run(); post-publication handlers close the socket then yield the terminal '
                         'event; no handler resumes the loop after a transport fault', 16)
@@ -60,11 +65,48 @@ def check(run):
                        'attempted and the close timeout fires when due', 3)
     C15.close(R, RID='C09.hang')
     proxyread(R)
+    teardown(R)
     from . import C16
     R.rule('C09.persist', 'persist(): nothing can be raised out of the reconnecting iterator (the connection generator '
                           'lets no exception out; the back-off arithmetic cannot overflow)', 10)
     with R.as_rule('C09.persist'):
         C16.check(R)
+
+
+def teardown(R):
+    """selector.close() runs in run()'s finally clause, outside every handler.  poll.unregister / modify raise KeyError
+    for a descriptor that is not registered (any more), kqueue.control(...KQ_EV_DELETE) likewise ENOENT: a registration is
+    dropped at one place only - in close(), not in a loop - so that it cannot be dropped twice."""
+    n = 0
+    for cq in sorted(R.prog.subclasses('selectors.SelectorBase')):
+        sites_ = []
+        for fq, fi in sorted(R.prog.funcs.items()):
+            if fi.cls is None or fi.cls.qual != cq:
+                continue
+            try:
+                cx = R.types.ctx(fq, cq)
+            except AnalysisError:
+                continue
+            parents = R.types.parents(fi)
+            for x in own_nodes(fi.node):
+                if isinstance(x, ast.Call) and any(t.kind == 'ext' and t.name in ('poll.unregister', 'poll.modify')
+                                                   for t in R.types.call_targets(x, cx)):
+                    p_ = parents.get(id(x))
+                    inloop = False
+                    while p_ is not None and p_ is not fi.node:
+                        if isinstance(p_, (ast.For, ast.While, ast.ListComp, ast.GeneratorExp)):
+                            inloop = True
+                        p_ = parents.get(id(p_))
+                    sites_.append((fi, x, inloop))
+        n += 1
+        ok = not sites_ or (len(sites_) == 1 and sites_[0][0].name == 'close' and not sites_[0][2])
+        R.ob('C09.sites', '%s: a poll registration is dropped once' % cq.split('.')[-1], ok,
+             '%s un-registers descriptors at %s: unregister() raises KeyError for a descriptor that was already dropped, and '
+             'run() calls selector.close() in its finally clause, outside every handler - the KeyError leaves the event '
+             'iterator' % (cq, ['%s%s' % (f_.qual, ' (in a loop)' if l_ else '') for (f_, _, l_) in sites_]),
+             func=(sites_[0][0] if sites_ else None), node=(sites_[0][1] if sites_ else None),
+             construct='%s unregister sites' % cq)
+    need(n >= 3, 'selector classes not found')
 
 
 def sites(R):
